@@ -8,6 +8,7 @@ import shutil
 import tempfile
 
 from ..mon import Reach
+from ..stream import cpu_budget, TooExpensive
 from ..result import Budget, digest, safe
 from ..stream import corelang_spec
 from ..gen_lang import gen_language, Cfg
@@ -168,6 +169,8 @@ def compile_files(files, root, via_graph=False, broken_first=None, res=None):
                         res.count('class:failed-compilation-of-the-same-path-before')
             with open(os.path.join(d, victim), 'w', encoding='utf-8', newline='') as f:
                 f.write(text)
+        # (CPU budget: a compilation of one of these small programs takes milliseconds; when it runs away the case is
+        # skipped and counted, never judged)
         if via_graph:
             return LanguageGraph.from_mal_spec(os.path.join(d, root))._lang_spec
         return MalCompiler().compile(os.path.join(d, root))
@@ -195,7 +198,11 @@ def _check_case(case, res, count=True):
         return None
     case['files'] = files
     try:
-        out = compile_files(files, root, via_graph=case.get('via_graph', False), broken_first=case.get('broken_first'), res=res if count else None)
+        with cpu_budget(30.0):
+            out = compile_files(files, root, via_graph=case.get('via_graph', False), broken_first=case.get('broken_first'), res=res if count else None)
+    except TooExpensive:
+        res.count('skipped:too-expensive')
+        return None
     except Exception as exc:
         return ('compiler:raised-%s' % type(exc).__name__, 'compiling a well-formed program (%s layout) raised %r' % (case['kind'], exc))
     if count:
